@@ -3,13 +3,15 @@ import ast
 import re
 from ..affine import Lin
 from ..front import dotted, const_value, unparse, walk_no_nested, parent_map, kwarg
-from ..core import holds, violation, unrecognised
+from ..core import holds, violation, unrecognised, named
 from ..flow import AbsInt
 from ..rules import decide_states, reaching_defs
 
 ID = "C18"
 ANCHORS = 'annotate.count_annotations,annotate.pairwise_annotations,annotate.pairwise_annotations_spacing,kmers.kmers'.split(",")
 MIN_INSTANCES = 14
+# rule families whose findings in this module are derived by an engine (not by comparing spellings): exempt from the rewrite gate
+SEMANTIC_RULES = {"R-GUARD", "R-ACCEPT"}
 EXPLANATION = (
     "R-GUARD: at each of the four stores into the (a, b, d) count tensor of pairwise_annotations_spacing the distance "
     "index d is proved to satisfy 0 <= d < max_distance from the guards on the path (abstract interpretation + "
@@ -205,7 +207,7 @@ def pair_loops(fi):
         out.append(unrecognised("PAIRS", fi, role2, "early exit `%s` at line %d together with a sort `%s`: an ordered scan needs re-confirmation"
                                 % (unparse(exits[0]), exits[0].lineno, unparse(sorts[0])[:60]), exits[0]))
     elif exits:
-        out.append(violation("PAIRS", fi, role2, "`%s` at line %d leaves a pair loop early; the rows of an example are in table order, so "
+        out.append(named("PAIRS", fi, role2, "`%s` at line %d leaves a pair loop early; the rows of an example are in table order, so "
                              "later rows that pair with the current one are never visited" % (unparse(exits[0]), exits[0].lineno), exits[0]))
     else:
         out.append(holds("PAIRS", fi, role2, "no break/return in the pair loops; rows are never sorted", outer[0]))
